@@ -96,8 +96,10 @@ fn texts_of(input: &Value) -> Vec<(String, String)> {
     v
 }
 
+static CWD_LOCK: std::sync::Mutex<()> = std::sync::Mutex::new(());
+
 /// analyse + generate (mode) on the given files; Ok(files by name) or Err(message)
-fn run_once(root: &Path, files: &[(String, String)], mode: &str) -> Result<(usize, BTreeMap<String, String>), String> {
+fn run_once(root: &Path, files: &[(String, String)], mode: &str, style: u64) -> Result<(usize, BTreeMap<String, String>), String> {
     let src = root.join("src-tauri");
     let _ = std::fs::remove_dir_all(&src);
     for (p, t) in files {
@@ -110,8 +112,23 @@ fn run_once(root: &Path, files: &[(String, String)], mode: &str) -> Result<(usiz
     let out_dir: PathBuf = root.join(format!("out_{}", mode));
     let _ = std::fs::remove_dir_all(&out_dir);
     let mut cfg = GenerateConfig::default();
-    cfg.project_path = src.to_string_lossy().to_string();
-    cfg.output_path = out_dir.to_string_lossy().to_string();
+    // the same directory under the spellings a user types: trailing separator, doubled separator, `/.`, `./` from the parent
+    let plain = src.to_string_lossy().to_string();
+    let _cwd_guard = CWD_LOCK.lock().unwrap_or_else(|e| e.into_inner());
+    let old_cwd = std::env::current_dir().ok();
+    cfg.project_path = match style {
+        1 => format!("{}/", plain),
+        2 => format!("{}//", plain),
+        3 => format!("{}/.", plain),
+        4 => { let _ = std::env::set_current_dir(root); "./src-tauri".to_string() }
+        5 => { let _ = std::env::set_current_dir(root); "src-tauri/".to_string() }
+        6 => plain.replacen("/src-tauri", "//src-tauri", 1),
+        _ => plain,
+    };
+    struct Back(Option<PathBuf>);
+    impl Drop for Back { fn drop(&mut self) { if let Some(d) = &self.0 { let _ = std::env::set_current_dir(d); } } }
+    let _back = Back(old_cwd);
+    cfg.output_path = if style == 1 || style == 5 { format!("{}/", out_dir.to_string_lossy()) } else { out_dir.to_string_lossy().to_string() };
     cfg.validation_library = mode.to_string();
     let mut analyzer = CommandAnalyzer::new();
     let commands = analyzer.analyze_project(&cfg.project_path).map_err(|e| e.to_string())?;
@@ -141,6 +158,7 @@ pub fn exec_robust(input: &Value) -> (Value, Value) {
     if with_good {
         all.push(("good_fixed.rs".to_string(), GOOD.to_string()));
     }
+    let style = input.get("path_style").and_then(|x| x.as_u64()).unwrap_or(0);
     let unparsable: Vec<bool> = all.iter().map(|(p, t)| p.ends_with(".rs") && syn::parse_file(t).is_err()).collect();
     let n_bad = unparsable.iter().filter(|b| **b).count();
     let imp = guarded(|| {
@@ -150,7 +168,7 @@ pub fn exec_robust(input: &Value) -> (Value, Value) {
         o.insert("bytes".into(), json!(all.iter().map(|x| x.1.len()).sum::<usize>()));
         let mut isolated = true;
         for mode in ["none", "zod"] {
-            let full = run_once(&root, &all, mode);
+            let full = run_once(&root, &all, mode, style);
             match &full {
                 Ok((n, fs)) => {
                     o.insert(format!("{}_result", mode), json!("ok"));
@@ -165,7 +183,7 @@ pub fn exec_robust(input: &Value) -> (Value, Value) {
             if n_bad > 0 {
                 let reduced: Vec<(String, String)> =
                     all.iter().zip(unparsable.iter()).filter(|(_, b)| !**b).map(|(f, _)| f.clone()).collect();
-                let red = run_once(&root, &reduced, mode);
+                let red = run_once(&root, &reduced, mode, style);
                 let same = match (&full, &red) {
                     (Ok(a), Ok(b)) => a == b,
                     (Err(_), Err(_)) => true,
@@ -249,6 +267,34 @@ fn attr_payload(rng: &mut Rng) -> String {
     parts.join(if rng.chance(1, 5) { " , " } else { ", " })
 }
 
+/// any attribute a Rust file may carry on an item, field, variant or parameter: well-known and unknown paths, with a
+/// payload that need not be what the attribute's owner expects (syn accepts every balanced token tree)
+fn odd_attr(rng: &mut Rng) -> String {
+    let name = ["cfg_attr", "cfg", "derive", "doc", "allow", "repr", "serde", "validate", "tauri::command", "command", "specta::specta", "ts",
+        "schemars", "non_exhaustive", "deprecated", "path", "must_use", "inline", "tokio::main", "cfg_attr", "cfg_attr"][rng.below(21)];
+    let payload = match rng.below(12) {
+        0 => "feature = \"serde\", derive(Serialize, Deserialize)".to_string(),
+        1 => "feature = \"serde\" derive(Serialize)".to_string(),               // no top-level comma
+        2 => "docsrs".to_string(),
+        3 => "all(feature = \"a\", not(test)), serde(rename_all = \"camelCase\")".to_string(),
+        4 => String::new(),
+        5 => ",".to_string(),
+        6 => "test, derive(Debug), derive(Serialize), serde(rename = \"x\")".to_string(),
+        7 => format!("{}", lit(rng)),
+        8 => attr_payload(rng),
+        9 => "any(), ".to_string(),
+        10 => "(((a)), [b, {c}])".to_string(),
+        _ => format!("feature = {}, {}({})", lit(rng), ["derive", "serde", "validate", "doc"][rng.below(4)], attr_payload(rng)),
+    };
+    match rng.below(8) {
+        0 => format!("#[{}]", name),
+        1 => format!("#[{} = {}]", name, lit(rng)),
+        2 => format!("#[{}[{}]]", name, payload),
+        3 => format!("#[{}{{{}}}]", name, payload),
+        _ => format!("#[{}({})]", name, payload),
+    }
+}
+
 const EXOTIC_TYPES: &[&str] = &[
     "Vec<Option<HashMap<String, (u8, Vec<&'static str>)>>>", "&'a mut [u8]", "[u8; 32]", "[[f32; 4]; 4]", "fn(u8) -> u8", "Box<dyn Fn(&str) -> Result<(), E> + Send + 'static>",
     "impl Iterator<Item = u8>", "!", "*const u8", "<T as Trait>::Out", "std::collections::HashMap<String, Vec<u8>>", "Option<>", "Result<,>", "r#type", "Übergröße",
@@ -262,7 +308,9 @@ fn exotic_item(rng: &mut Rng, k: usize) -> String {
     let ty = |rng: &mut Rng| EXOTIC_TYPES[rng.below(EXOTIC_TYPES.len())].to_string();
     let idents = ["r#type", "r#fn", "übung", "名前", "_", "__", "a1", "self_", "Ünïcode", "x"];
     let id = |rng: &mut Rng| idents[rng.below(idents.len())].to_string();
-    match [0, 1, 1, 1, 2, 2, 3, 4, 5, 6, 7, 8][rng.below(12)] {
+    match [0, 1, 1, 1, 2, 2, 3, 4, 5, 6, 7, 8, 9, 9, 9][rng.below(15)] {
+        9 => format!("{}\n#[derive(Serialize, Deserialize)]\n{}\npub struct A{} {{ {} pub {}: {}, {} f: u8 }}\n{}\n#[derive(Serialize)]\npub enum AE{} {{ {} A, {} B(u8) }}\n{}\n#[tauri::command]\n{}\nfn attr_cmd_{}({} a: A{}, b: AE{}) {{}}\n",
+            odd_attr(rng), odd_attr(rng), k, odd_attr(rng), id(rng), ty(rng), odd_attr(rng), odd_attr(rng), k, odd_attr(rng), odd_attr(rng), odd_attr(rng), odd_attr(rng), k, odd_attr(rng), k, k),
         0 => format!("#[tauri::command]\npub async fn cmd_{}<'a, T: Clone + 'a, const N: usize>({}: {}, {}: {}) -> {} where T: Send {{ todo!() }}\n", k, id(rng), ty(rng), id(rng), ty(rng), ty(rng)),
         1 => format!("#[derive(Serialize, Deserialize)]\n#[serde({})]\npub struct S{}<'a, T = ()> {{ #[serde({})] pub {}: {}, #[validate({})] pub f: {} }}\n", attr_payload(rng), k, attr_payload(rng), id(rng), ty(rng), attr_payload(rng), ty(rng)),
         2 => format!("#[derive(Serialize)]\n#[serde({})]\npub enum E{} {{ #[serde({})] A, B({}), C {{ x: {} }}, D = 7 }}\n", attr_payload(rng), k, attr_payload(rng), ty(rng), ty(rng)),
@@ -392,14 +440,16 @@ pub fn run(out: &mut Out, tier: &str, rng: &mut Rng) {
             let params: Vec<String> = names.iter().enumerate().map(|(q, n)| format!("p{}: {}", q, if q % 3 == 2 { format!("Vec<Option<{}>>", n) } else { n.clone() })).collect();
             t.push_str(&format!("#[tauri::command]\npub fn use_{}({}) -> Result<{}, String> {{ todo!() }}\n", i, params.join(", "), names[0]));
         }
-        out.case("robustSrc", json!({"files": [{"path": "fuzz.rs", "text": t}]}), json!({"gen": "grammar"}));
+        let fname = ["fuzz.rs", "fuzz.rs", "fuzz.rs", "übung.rs", "日本/モデル.rs", "a b/c d.rs", "legacy.rs/inner.rs", "ünit/mod.rs", "mod.rs", "🦀.rs"][rng.below(10)];
+        let style = if rng.chance(1, 2) { 0 } else { rng.below(7) };
+        out.case("robustSrc", json!({"files": [{"path": fname, "text": t}], "path_style": style}), json!({"gen": "grammar", "path_style": style}));
     }
     // 2. text that is not Rust next to good files, at several depths
     let n = if thorough { 2000 } else { 200 };
     for i in 0..n {
         let mut files = Vec::new();
         for j in 0..1 + rng.below(3) {
-            let dir = ["", "a/", "a/b/", "deep/er/still/"][rng.below(4)];
+            let dir = ["", "a/", "a/b/", "deep/er/still/", "é/", "名前/x.rs/", "with space/"][rng.below(7)];
             files.push(json!({"path": format!("{}bad{}_{}.rs", dir, i, j), "text": not_rust(rng)}));
         }
         if rng.chance(1, 2) {
@@ -408,7 +458,8 @@ pub fn run(out: &mut Out, tier: &str, rng: &mut Rng) {
         if rng.chance(1, 2) {
             files.push(json!({"path": format!("ok{}.rs", i), "text": exotic_item(rng, i)}));
         }
-        out.case("robustSrc", json!({"files": files}), json!({"gen": "notrust"}));
+        let style = if rng.chance(1, 2) { 0 } else { rng.below(7) };
+        out.case("robustSrc", json!({"files": files, "path_style": style}), json!({"gen": "notrust", "path_style": style}));
     }
     // 3. real-world corpus: the repository and the vendored dependency sources, as they are and transformed
     let paths = corpus_paths();
